@@ -43,6 +43,8 @@ def build(kinds, keys):
             b = M.Preamble("pre", n - i, "raw" + str(i))
         elif kd == "E":
             b = M.Entry("article", k, [M.Field("t", "x")], n - i, "raw" + str(i))
+        elif kd == "Z":
+            b = M.Entry("article", "", [M.Field("t", "x")], n - i, "raw" + str(i))     # empty key: a key like any other
         elif kd == "J":
             b = M.ImplicitComment("", n - i, "raw" + str(i))        # a comment whose text is empty is still a comment
         elif kd == "Y":
@@ -274,7 +276,7 @@ def main():
     chk.bounds = {"libraries": f"{len(seqs)} kind sequences (all of length <= {nmax}" + (" plus selected length-4" if chk.tier == "quick" else "") + ") over String/Preamble/Entry/ImplicitComment/ExplicitComment/ParsingFailedBlock",
                   "keys": "every String/Entry key one symbolic character over {a,b} (collisions produce DuplicateBlockKeyBlock wrappers)",
                   "orders": sorted(ORDERS), "comment modes": [True, False]}
-    chk.assumptions = ["block_type_order ranges over the five listed orders (full, reversed, single, empty, partial)", "keys are one character; empty keys occur through key-less blocks"]
+    chk.assumptions = ["block_type_order ranges over the five listed orders (full, reversed, single, empty, partial)", "keys are one character; empty keys occur through key-less blocks and through an entry whose key is the empty string"]
     chk.expected_vacuity = ["reordered", "duplicate-wrapper-sorted", "instance-reused"]
     # comments with empty text, and comments that compare equal to one another (a comment is a comment by type, and the
     # comment run above a block is found by position, not by value)
@@ -284,6 +286,11 @@ def main():
             s = "".join(kinds)
             if (("J" in s or "Y" in s) and n <= 3 and sum(c in "ES" for c in s) >= 1) or (s.count("Q") >= 2 and sum(c in "ES" for c in s) >= 1 and "J" not in s and "Y" not in s):
                 extra.append(s)
+    for n in (2, 3):
+        for kinds in itertools.product("ZPSEX", repeat=n):
+            s2 = "".join(kinds)
+            if "Z" in s2 and sum(c in "PSE" for c in s2) >= 1:
+                extra.append(s2)
     chk.bounds["empty / value-equal comments"] = f"{len(extra)} sequences of length 2..4 over empty-text implicit/explicit comments, value-equal comments, Entry, String"
     for s in seqs + extra:
         chk.add_task(f"seq-{s}", task, kinds=s)
